@@ -6,15 +6,15 @@ import numpy as np
 
 from .. import common as C
 from .. import gen_doc, gen_ptype
-from ..gen_ptype import WTYPES, PTYPES, METHODS, EXC_CODE
+from ..gen_ptype import WTYPES, BODIES, PTYPES, METHODS, EXC_CODE
 
 ID = 'C08'
 MODEL = 'c08'
 RUNFUN = 'run'
 COQ_TARGETS = ['theories/Properties/C08.vo', 'theories/Extract/RunC08.vo']
 DESIGN_REF = 'DESIGN.md section 4.1 and section 6, C08'
-TECHNIQUE = ('generated-table tie: the implementation\'s transition function (wavefront ptype x fitted-tilt bit) x '
-             '(Plane(ptype=p) | every public plane class | propagate_dft/propagate_fft) is observed exhaustively on the '
+TECHNIQUE = ('generated-table tie: the implementation\'s transition function (wavefront ptype x content: fields, tilted fields, no fields) x '
+             '(Plane(ptype=p) | every public plane class, fresh and re-used objects | propagate_dft/propagate_fft) is observed exhaustively on the '
              'real classes and emitted as Gallina (Gen/PTypeObserved.v), the three RST tables of the user guide are '
              'parsed into Gen/DocTable.v, both on every check; Coq proves the tables equal (finite case analysis) and, by '
              'induction over programs of any length, that every trace of the observed machine is the documented one; '
@@ -41,14 +41,18 @@ ASSUMPTIONS = ['wavefronts and planes share one pixel scale, wavefronts have a f
                'propagate_fft refusing a wavefront with fitted tilt (NotImplementedError) is implementation-defined: '
                'the documentation tables do not mention it; model parameter observed_fft_refuses_tilt, the oracle '
                'accepts either behaviour',
-               'tilts are small (<= 1/8 output sample per tilt plane) so that a propagated field never leaves the output '
-               'window completely (a wavefront without fields has no tilt bit)',
+               'tilts are small (<= 1/32 output sample per tilt plane): a wavefront loses all its fields only where the '
+               'program says so (a plane whose aperture is disjoint from all the light, or Wavefront.empty); the content '
+               'of a wavefront (plain / tilted / no fields) is model state, its evolution is implementation-defined',
                'no fit_tilt on planes (tilt enters only through Tilt/DispersiveTilt/Grism planes and Wavefront(tilt=))']
-RULE = ('corpus first; every single step exhaustively (6 states x (5 plane types + every public class + 2 routines)); '
+RULE = ('corpus first; every single step exhaustively (9 states = 3 types x {fields, tilted fields, no fields} x '
+        '(5 plane types + every public class, each with an overlapping and a disjoint aperture, + 2 routines)); every '
+        'plane kind re-used (the same object, and a copy() of it) on wavefronts of two different types in both orders; '
         'random programs of length <= 12 (quick) / <= 40 (thorough) over all plane types, all public plane classes and '
-        'both routines, random constructions of every object (scalar/array/segmented planes, several shapes, tilts, '
-        'propagation shapes and oversampling); thorough: also every 2-step program; <= 5 % of cases touch Rotate/Flip; '
-        'non-trivial = at least two steps; distinct by case hash')
+        'both routines, with planes drawn from a pool of long-lived objects re-used across steps, across wavefront '
+        'types and across fresh wavefronts, random constructions of every object (scalar/array/segmented planes, '
+        'several shapes, tilts, disjoint apertures, propagation shapes and oversampling); thorough: also every 2-step '
+        'program; <= 5 % of cases touch Rotate/Flip; non-trivial = at least two steps; distinct by case hash')
 
 BROKEN = ('Rotate', 'Flip')
 _cache = {}
@@ -76,52 +80,118 @@ def _doc():
 
 
 # ------------------------------------------------------------------ cases
-def _rand_op(rng, classes_ok):
+# A case is one self-contained history:
+#   start, body            state of the first wavefront ('plain' | 'tilted' | 'empty')
+#   pool                   long-lived plane objects [kind, name, variant, clip], built once, in order
+#   ops                    ['mulp', ptype, variant, clip]   w = w * Plane(ptype=..)      (a new object)
+#                          ['mulc', class, variant, clip]   w = w * Class(..)            (a new object)
+#                          ['pool', i, copy]                w = w * pool[i]   (copy: w * pool[i].copy())
+#                          ['prop', 'dft'|'fft', variant]   w = propagate_xxx(w, ..)
+#                          ['fresh', type, body, variant]   w = a new wavefront; the pool lives on
+#                          ['back', k]                      w = the wavefront that was the operand k steps ago
+#                                                           (one wavefront object fanned out to several planes /
+#                                                           propagations; such cases are judged by the oracle
+#                                                           only: what a successful step may do to its operand
+#                                                           is not pinned by C08, so the model is not asked)
+#   sv                     construction variant of the first wavefront
+def _norm(c, o):
+    """-> (kind, name, variant, clip, pool index or None, copy)"""
+    if o[0] == 'pool':
+        k, n, v, cl = c['pool'][o[1]]
+        return (k, n, v, bool(cl), o[1], bool(o[2]) if len(o) > 2 else False)
+    if o[0] in ('mulp', 'mulc'):
+        return (o[0], o[1], o[2], bool(o[3]) if len(o) > 3 else False, None, False)
+    if o[0] == 'back':
+        return ('back', o[1], 0, False, None, False)
+    return (o[0], o[1], o[2] if o[0] == 'prop' else (o[2], o[3] if len(o) > 3 else 0), False, None, False)
+
+
+def _rand_plane(rng, classes_ok, p_clip=0.08):
+    clip = rng.random() < p_clip
+    if rng.random() < 0.42:
+        kind, name = 'mulp', rng.choice(PTYPES)
+    else:
+        kind, name = 'mulc', rng.choice(classes_ok)
+    return [kind, name, rng.randrange(gen_ptype.n_variants(kind, name, clip)), clip]
+
+
+def _rand_op(rng, classes_ok, npool=0):
     t = rng.random()
-    if t < 0.33:
-        name = rng.choice(PTYPES)
-        return ['mulp', name, rng.randrange(gen_ptype.n_variants('mulp', name))]
+    if npool and t < 0.45:
+        return ['pool', rng.randrange(npool), rng.random() < 0.15]
     if t < 0.78:
-        name = rng.choice(classes_ok)
-        return ['mulc', name, rng.randrange(gen_ptype.n_variants('mulc', name))]
-    name = rng.choice(METHODS)
-    return ['prop', name, rng.randrange(gen_ptype.n_variants('prop', name))]
+        return _rand_plane(rng, classes_ok)
+    if t < 0.97 or not npool:
+        name = rng.choice(METHODS)
+        return ['prop', name, rng.randrange(gen_ptype.n_variants('prop', name))]
+    return ['fresh', rng.choice(WTYPES), rng.choice(BODIES), rng.randrange(2)]
 
 
 def generate(rng, tier):
     classes = _classes()
     ok = [k for k in classes if k not in BROKEN]
-    all_ops = [('mulp', p) for p in PTYPES] + [('mulc', k) for k in classes] + [('prop', m) for m in METHODS]
-    states = [(w, t) for w in WTYPES for t in (False, True)]
+    planes = [(kind, n, clip) for clip in (False, True) for kind, ns in (('mulp', PTYPES), ('mulc', classes)) for n in ns]
+    all_ops = [('mulp', p, clip) for p in PTYPES for clip in (False, True)] + \
+              [('mulc', k, clip) for k in classes for clip in (False, True)] + [('prop', m, False) for m in METHODS]
+    states = [(w, b) for w in WTYPES for b in BODIES]
+
+    def mk(kind, name, clip):
+        v = rng.randrange(gen_ptype.n_variants(kind, name, clip))
+        return ['prop', name, v] if kind == 'prop' else [kind, name, v, clip]
+
     # 1. every single step, exhaustively
-    for (w, t) in states:
-        for kind, name in all_ops:
-            yield {'op': 'program', 'start': w, 'tilted': t,
-                   'ops': [[kind, name, rng.randrange(gen_ptype.n_variants(kind, name))]]}
-    # 2. every two-step program over the claimed operations (thorough), a sample of them (quick)
+    for (w, b) in states:
+        for kind, name, clip in all_ops:
+            yield {'op': 'program', 'start': w, 'body': b, 'pool': [], 'ops': [mk(kind, name, clip)]}
+    # 2. every plane kind as ONE long-lived object used on wavefronts of two different types (both orders),
+    #    directly, through copy(), and once more on the first type
+    for kind, name, clip in planes:
+        if name in BROKEN:
+            continue
+        for w1 in WTYPES:
+            for w2 in WTYPES:
+                if w1 == w2:
+                    continue
+                for cp in (False, True):
+                    yield {'op': 'program', 'start': w1, 'body': 'plain', 'pool': [mk(kind, name, clip)],
+                           'ops': [['pool', 0, False], ['fresh', w2, rng.choice(BODIES), rng.randrange(2)],
+                                   ['pool', 0, cp], ['fresh', w1, 'plain', 0], ['pool', 0, cp]]}
+    # 3. every two-step program over the claimed operations (thorough), a sample of them (quick)
     claimed = [o for o in all_ops if o[1] not in BROKEN]
     pairs = [(s, a, b) for s in states for a in claimed for b in claimed]
     if tier != 'thorough':
         pairs = rng.sample(pairs, 300)
-    for (w, t), a, b in pairs:
-        yield {'op': 'program', 'start': w, 'tilted': t,
-               'ops': [[k, n, rng.randrange(gen_ptype.n_variants(k, n))] for k, n in (a, b)]}
-    # 3. random programs
+    for (w, bd), a, b in pairs:
+        yield {'op': 'program', 'start': w, 'body': bd, 'pool': [], 'ops': [mk(*a), mk(*b)]}
+    # 3b. one wavefront object fanned out to two steps: [a, back to the operand, b]
+    fan = [(w, a, b) for w in WTYPES for a in claimed for b in claimed]
+    if tier != 'thorough':
+        fan = rng.sample(fan, 200)
+    for w, a, b in fan:
+        yield {'op': 'program', 'start': w, 'body': 'plain', 'pool': [], 'ops': [mk(*a), ['back', 1], mk(*b)]}
+    # 4. random programs; two thirds of them draw their planes from a pool of long-lived objects
     n, maxlen = (5000, 40) if tier == 'thorough' else (1000, 12)
     for i in range(n):
         ln = rng.randint(2, maxlen) if rng.random() < 0.8 else rng.randint(2, 5)
-        ops = [_rand_op(rng, ok) for _ in range(ln)]
+        pool = [_rand_plane(rng, ok, 0.05) for _ in range(rng.randint(1, 5))] if rng.random() < 0.67 else []
+        ops = [_rand_op(rng, ok, len(pool)) for _ in range(ln)]
         if rng.random() < 0.02:      # known-finding inputs stay rare
             k = rng.choice(BROKEN)
-            ops.insert(rng.randrange(len(ops) + 1), ['mulc', k, rng.randrange(gen_ptype.n_variants('mulc', k))])
-        yield {'op': 'program', 'start': rng.choice(WTYPES), 'tilted': rng.random() < 0.25, 'ops': ops}
+            ops.insert(rng.randrange(len(ops) + 1), ['mulc', k, rng.randrange(gen_ptype.n_variants('mulc', k)), False])
+        if rng.random() < 0.12:      # fan one wavefront object out to several steps
+            for _ in range(rng.randint(1, 3)):
+                ops.insert(rng.randrange(1, len(ops) + 1), ['back', rng.randint(1, 3)])
+        t = rng.random()
+        yield {'op': 'program', 'start': rng.choice(WTYPES), 'body': 'tilted' if t < 0.2 else 'empty' if t < 0.3 else 'plain',
+               'sv': rng.randrange(2), 'pool': pool, 'ops': ops}
 
 
 def classify(c):
     n = len(c['ops'])
     if n == 1:
         return 'single:' + c['ops'][0][0]
-    return 'program:len' + ('2' if n == 2 else '<=5' if n <= 5 else '<=12' if n <= 12 else '<=40')
+    tag = 'fanout' if any(o[0] == 'back' for o in c['ops']) else 'pool' if c.get('pool') else 'program'
+    return tag + ':len' + ('2' if n == 2 else '<=5' if n <= 5 else '<=12' if n <= 12 else '<=40')
 
 
 def nontrivial(c):
@@ -131,16 +201,21 @@ def nontrivial(c):
 # ------------------------------------------------------------------ model side
 def encode(c):
     classes = _classes()
-    out = [1, WTYPES.index(c['start']), 1 if c['tilted'] else 0, len(c['ops'])]
-    for kind, name, _v in c['ops']:
+    out = [1, WTYPES.index(c['start']), BODIES.index(c['body']), len(c['ops'])]
+    for o in c['ops']:
+        kind, name, v, clip, _pi, _cp = _norm(c, o)
+        if kind == 'back':
+            return None
         if kind == 'mulp':
-            out += [0, PTYPES.index(name)]
+            out += [0, PTYPES.index(name), int(clip)]
         elif kind == 'mulc':
             if name not in classes:
                 return None
-            out += [1, classes.index(name)]
+            out += [1, classes.index(name), int(clip)]
+        elif kind == 'prop':
+            out += [2, METHODS.index(name), 0]
         else:
-            out += [2, METHODS.index(name)]
+            out += [3, WTYPES.index(name), BODIES.index(v[0])]
     return out
 
 
@@ -152,10 +227,10 @@ def decode(c, ints):
     tr = []
     for _ in range(n):
         if ints[i] == 0:
-            tr.append(['y', WTYPES[ints[i + 1]], bool(ints[i + 2])])
+            tr.append(['y', WTYPES[ints[i + 1]], BODIES[ints[i + 2]]])
             i += 3
         else:
-            tr.append(['r', ints[i + 1], WTYPES[ints[i + 2]], bool(ints[i + 3])])
+            tr.append(['r', ints[i + 1], WTYPES[ints[i + 2]], BODIES[ints[i + 3]]])
             i += 4
     assert i == len(ints)
     return {'trace': tr}
@@ -188,28 +263,50 @@ def snapshot(o, seen=None, depth=0):
 
 
 def _state(w):
-    """(ptype string, carries tilt) without any validation: the comparator and the oracle judge it"""
+    """(ptype string, content) without any validation: the comparator and the oracle judge it"""
     try:
-        tl = any(bool(f.tilt) for f in w.data)
+        body = 'empty' if len(w.data) == 0 else 'tilted' if any(bool(f.tilt) for f in w.data) else 'plain'
     except Exception:
-        tl = None
-    return [str(w.ptype), tl]
+        body = None
+    return [str(w.ptype), body]
 
 
 def run_impl(c):
     lentil = C.import_lentil()
-    w = gen_ptype.build_wavefront(lentil, c['start'], c['tilted'])
+    c = dict(c)
+    c.setdefault('pool', [])
+    if 'body' not in c:                      # older corpus format
+        c['body'] = 'tilted' if c.get('tilted') else 'plain'
+    w = gen_ptype.build_wavefront(lentil, c['start'], c['body'], c.get('sv', 0))
+    hist = []
+    pool = [gen_ptype.build_plane(lentil, k, n, v, bool(cl)) for k, n, v, cl in c['pool']]
     trace = []
     with warnings.catch_warnings():
         warnings.simplefilter('ignore')
-        for kind, name, v in c['ops']:
+        for o in c['ops']:
+            kind, name, v, clip, pi, cp = _norm(c, o)
             entry = {'before': _state(w)}
+            hist.append(w)
+            if kind == 'back':
+                w = hist[max(0, len(hist) - 1 - name)]
+                entry['yields'] = _state(w)
+                trace.append(entry)
+                continue
+            if kind == 'fresh':
+                w = gen_ptype.build_wavefront(lentil, name, v[0], v[1])
+                entry['yields'] = _state(w)
+                trace.append(entry)
+                continue
             if kind == 'prop':
                 pl = None
                 fn = (lambda ww, name=name, v=v: gen_ptype.do_propagate(lentil, name, ww, v))
             else:
-                pl = gen_ptype.build_plane(lentil, kind, name, v)
+                if pi is None:
+                    pl = gen_ptype.build_plane(lentil, kind, name, v, clip)
+                else:
+                    pl = pool[pi].copy() if cp else pool[pi]
                 entry['plane_ptype'] = str(pl.ptype)
+                entry['plane_class'] = type(pl).__name__
                 fn = (lambda ww, pl=pl: ww * pl)
             sw = snapshot(w)
             sp = snapshot(pl)
@@ -226,6 +323,7 @@ def run_impl(c):
                     trace.append(entry)
                     break
                 entry['yields'] = _state(r)
+                entry['same_object'] = r is w
                 w = r
             trace.append(entry)
     return {'trace': trace}
@@ -257,13 +355,28 @@ def _failures(c, impl):
     doc = _doc()
     out = []
     tr = impl['trace']
+    c = dict(c)
+    c.setdefault('pool', [])
+    if 'body' not in c:
+        c['body'] = 'tilted' if c.get('tilted') else 'plain'
     if len(tr) != len(c['ops']):
         out.append((len(tr) - 1, 'not-a-wavefront', f'step {len(tr) - 1} did not return a Wavefront: {tr[-1].get("yields")}'))
-    cur = [c['start'], bool(c['tilted'])]
+    cur = [c['start'], c['body']]
     for i, e in enumerate(tr):
-        kind, name, _v = c['ops'][i]
+        kind, name, v, clip, pi, cp = _norm(c, c['ops'][i])
         if e['before'] != cur:
             out.append((i, 'state', f'step {i}: wavefront state {e["before"]} is not the state the previous step left ({cur})'))
+        if kind == 'back':
+            cur = e['yields']               # whatever state that wavefront object is in now
+            if cur[0] not in WTYPES:
+                out.append((i, 'type', f'step {i}: wavefront has type {cur[0]!r}'))
+                break
+            continue
+        if kind == 'fresh':
+            if e['yields'] != [name, v[0]]:
+                out.append((i, 'harness', f'step {i}: could not build a fresh ({name}, {v[0]}) wavefront: {e["yields"]}'))
+            cur = e['yields']
+            continue
         wt = e['before'][0]
         if wt not in WTYPES:
             out.append((i, 'type', f'step {i}: wavefront has type {wt!r}'))
@@ -284,7 +397,9 @@ def _failures(c, impl):
             d = doc['mul'][(wt, p)]
         else:
             d = doc['prop'][(name, wt)]
-        what = f'step {i} {kind} {name} on a {wt} wavefront'
+        how = '' if pi is None else f' [pool object {pi}{", copy()" if cp else ""}, used before in this history]' \
+            if any(_norm(c, o)[4] == pi for o in c['ops'][:i]) else f' [pool object {pi}{", copy()" if cp else ""}]'
+        what = f'step {i} {kind} {name}{how} on a {wt} wavefront ({e["before"][1]})'
         if 'raises' in e:
             if e['kept'] != e['before']:
                 out.append((i, 'kept', f'{what}: refused ({e["raises"]}) but the wavefront state changed '
@@ -293,7 +408,8 @@ def _failures(c, impl):
                 out.append((i, 'operand', f'{what}: refused ({e["raises"]}) but the wavefront was modified'))
             if not e['p_unchanged']:
                 out.append((i, 'operand', f'{what}: refused ({e["raises"]}) but the plane was modified'))
-            fft_tilt = kind == 'prop' and name == 'fft' and e['before'][1] and e['raises'] == 'NotImplementedError'
+            fft_tilt = (kind == 'prop' and name == 'fft' and e['before'][1] == 'tilted'
+                        and e['raises'] == 'NotImplementedError')
             if fft_tilt:
                 pass                         # implementation-defined refusal of fitted tilt
             elif d is not None:
@@ -328,7 +444,7 @@ def known_match(f, c, impl):
     for i, code, _ in fails:
         if i < 0 or i >= len(c['ops']):
             return False
-        kind, name, _v = c['ops'][i]
+        kind, name = _norm(c, c['ops'][i])[:2]
         e = impl['trace'][i]
         if not (kind == 'mulc' and name in m.get('plane_class', []) and code in ('class-ptype', 'refused')):
             return False
@@ -346,7 +462,7 @@ def replay_known(f):
     lentil = C.import_lentil()
     still = False
     for name in f['match']['plane_class']:
-        c = {'op': 'program', 'start': 'pupil', 'tilted': False, 'ops': [['mulc', name, 0]]}
+        c = {'op': 'program', 'start': 'pupil', 'body': 'plain', 'pool': [], 'ops': [['mulc', name, 0, False]]}
         impl = run_impl(c)
         if _failures(c, impl) and known_match(f, c, impl):
             still = True
@@ -363,6 +479,7 @@ def extra(tier, rng):
            'class_ptype_documented': doc['class_ptype'],
            'classes_not_in_planes_rst': [k for k in obs['classes'] if k not in doc['class_ptype']],
            'class_tilts': obs['class_tilts'], 'fft_refuses_tilt': obs['fft_refuses_tilt'],
+           'cells_reobserved_with_a_used_plane_object': obs.get('history_observations'),
            'doc_cells': {'mul': len(doc['mul']), 'prop': len(doc['prop']), 'classes': len(doc['class_ptype'])},
            'constructions_per_cell': {'Plane(ptype=p)': len(gen_ptype.PLANE_VARIANTS),
                                       'propagate_dft': len(gen_ptype.DFT_VARIANTS),
